@@ -128,6 +128,7 @@ structure State where
   events : Nat → List (Nat × Nat)   -- per shard write-event buffer
   mlock : Nat → Option Nat          -- per shard maintenance_lock holder
   pc : Nat → PC
+  amode : Nat → Bool                -- the thread's current call goes through the async handle (`AsyncCache`)
   notifs : List Note                -- notifications accepted by the channel
   nextRid : Nat
   removed : List Note               -- ghost: every removal by remove / eviction / expiry
@@ -138,7 +139,7 @@ structure State where
 
 def init : State :=
   { map := fun _ => none, now := 0, cur := 0, events := fun _ => [], mlock := fun _ => none,
-    pc := fun _ => .idle, notifs := [], nextRid := 0, removed := [], hist := [], dom := [],
+    pc := fun _ => .idle, amode := fun _ => false, notifs := [], nextRid := 0, removed := [], hist := [], dom := [],
     drift := 0, dirty := false }
 
 def upd {α} (f : Nat → α) (i : Nat) (a : α) : Nat → α := fun j => if j = i then a else f j
@@ -223,7 +224,7 @@ def startPC (c : Cfg) (now : Nat) : Op → PC
   | .maint sh limit full => .mLock sh limit full
 
 inductive Label where
-  | call (op : Op)
+  | call (op : Op) (async : Bool)   -- environment: the thread starts `op` on the sync / async handle
   | advance (d : Nat)              -- environment: the clock advances
   | read
   | insMap | insSub | insEv | insAdd | coopSkip | coopLock
@@ -237,11 +238,11 @@ inductive Label where
   | unlock
 deriving Repr, DecidableEq
 
-def stepCall (c : Cfg) (s : State) (t : Nat) (op : Op) : Option State :=
+def stepCall (c : Cfg) (s : State) (t : Nat) (op : Op) (a : Bool) : Option State :=
   if t < c.nThreads then
     match s.pc t with
-    | .idle => some { s with pc := upd s.pc t (startPC c s.now op), hist := s.hist ++ [.inv t op] }
-    | .done _ => some { s with pc := upd s.pc t (startPC c s.now op), hist := s.hist ++ [.inv t op] }
+    | .idle => some { s with pc := upd s.pc t (startPC c s.now op), amode := upd s.amode t a, hist := s.hist ++ [.inv t op] }
+    | .done _ => some { s with pc := upd s.pc t (startPC c s.now op), amode := upd s.amode t a, hist := s.hist ++ [.inv t op] }
     | _ => none
   else none
 
@@ -291,9 +292,12 @@ def stepCoopSkip (s : State) (t : Nat) : Option State :=
   | .insMaint _ => some { s with pc := upd s.pc t (.done none), hist := s.hist ++ [.ret t none] }
   | _ => none
 
+/-- the sync `insert` runs cooperative maintenance inline; the async `insert` never does (it only
+signals the janitor thread, whose pass is a `maint` call of that thread) -/
 def stepCoopLock (c : Cfg) (s : State) (t : Nat) : Option State :=
   match s.pc t with
   | .insMaint k =>
+    if s.amode t then none else
     match s.mlock (shardOf c k) with
     | none => some { s with mlock := upd s.mlock (shardOf c k) (some t),
                             pc := upd s.pc t (startDrain ⟨shardOf c k, false⟩ c.coopLimit) }
@@ -518,7 +522,7 @@ def stepUnlock (s : State) (t : Nat) : Option State :=
   | _ => none
 
 def step (c : Cfg) (s : State) (t : Nat) : Label → Option State
-  | .call op => stepCall c s t op
+  | .call op a => stepCall c s t op a
   | .advance d => some { s with now := s.now + d }
   | .read => stepRead c s t
   | .insMap => stepInsMap s t
@@ -577,57 +581,64 @@ every `HybridRwLock` / `HybridMutex` acquisition and at every clock read, must p
 EXACTLY these events in this order. For a `call` the events are the lock-free prefix of the operation
 (building the entry), observed before the thread's next acquisition. -/
 
+/-- how a mutex-like lock is taken: blocking `lock`, `try_lock`, or the async `lock_async` -/
+inductive MKind where
+  | lock | tryl | alock
+deriving Repr, DecidableEq
+
 inductive Acc where
-  | shard (i : Nat) (w : Bool)       -- blocking read (`false`) / write (`true`) lock of shard i's map
-  | maint (i : Nat) (tryl : Bool)    -- maintenance_lock of shard i: `lock` / `try_lock`
-  | batch                            -- one stripe mutex of the read-access batcher
-  | clock                            -- one read of the cache clock
+  | shard (i : Nat) (w : Bool) (a : Bool)  -- shard i's map lock: read (`w = false`) / write; blocking or `*_async` (`a`)
+  | maint (i : Nat) (k : MKind)            -- maintenance_lock of shard i
+  | batch (k : MKind)                      -- one stripe mutex of the read-access batcher
+  | clock                                  -- one read of the cache clock
 deriving Repr, DecidableEq
 
 def residentIn (c : Cfg) (s : State) (sh : Nat) : Nat :=
   (s.dom.filter (fun k => decide (k % c.nShards = sh) && (s.map k).isSome)).length
 
 def footprint (c : Cfg) (s : State) (t : Nat) : Label → List Acc
-  | .call (.insert _ _ _ none) => [.clock]
-  | .call (.insert _ _ _ (some _)) => if c.tti = 0 then [.clock] else [.clock, .clock]
+  | .call (.insert _ _ _ none) _ => [.clock]
+  | .call (.insert _ _ _ (some _)) _ => if c.tti = 0 then [.clock] else [.clock, .clock]
   | .read =>
     match s.pc t with
     | .rd k peek =>
-      .shard (shardOf c k) false ::
+      .shard (shardOf c k) false (s.amode t) ::
         (match s.map k with
          | none => []
          | some e =>
            .clock :: (if expired c s.now e || peek then []
-                      else (if c.tti = 0 then [] else [.clock]) ++ (if c.track then [.batch] else [])))
+                      else (if c.tti = 0 then [] else [.clock]) ++
+                           (if c.track then [.batch (if s.amode t then .tryl else .lock)] else [])))
     | _ => []
-  | .insMap => (match s.pc t with | .ins k _ _ _ _ => [.shard (shardOf c k) true] | _ => [])
-  | .coopLock => (match s.pc t with | .insMaint k => [.maint (shardOf c k) true] | _ => [])
-  | .rmMap => (match s.pc t with | .rm k => [.shard (shardOf c k) true] | _ => [])
-  | .compute _ => (match s.pc t with | .cmp k _ _ => [.shard (shardOf c k) true] | _ => [])
+  | .insMap => (match s.pc t with | .ins k _ _ _ _ => [.shard (shardOf c k) true (s.amode t)] | _ => [])
+  | .coopLock => (match s.pc t with | .insMaint k => [.maint (shardOf c k) .tryl] | _ => [])
+  | .rmMap => (match s.pc t with | .rm k => [.shard (shardOf c k) true (s.amode t)] | _ => [])
+  | .compute _ => (match s.pc t with | .cmp k _ _ => [.shard (shardOf c k) true (s.amode t)] | _ => [])
   | .oiMap =>
     (match s.pc t with
-     | .oi k _ _ => .shard (shardOf c k) true :: (match s.map k with | none => [.clock] | some _ => [])
+     | .oi k _ _ => .shard (shardOf c k) true (s.amode t) :: (match s.map k with | none => [.clock] | some _ => [])
      | _ => [])
-  | .clear => (List.range c.nShards).map (fun i => .shard i true)
-  | .mLock => (match s.pc t with | .mLock sh _ _ => [.maint sh false] | _ => [])
+  | .clear => (List.range c.nShards).map (fun i => .shard i true (s.amode t))
+  | .mLock => (match s.pc t with | .mLock sh _ _ => [.maint sh (if s.amode t then .alock else .lock)] | _ => [])
   | .recv =>
     (match s.pc t with
      | .mDrain m left _ =>
        -- the step that ends the drain loop also drains both read-batcher instances (2 × 16 stripes)
-       if (s.events m.sh).isEmpty || left ≤ 1 then List.replicate 32 .batch else []
+       if (s.events m.sh).isEmpty || left ≤ 1 then List.replicate 32 (.batch .lock) else []
      | _ => [])
-  | .victim => (match s.pc t with | .mVictim _ _ (vk :: _) _ _ => [.shard (shardOf c vk) true] | _ => [])
-  | .ttlMap _ => (match s.pc t with | .mTtlMap m _ => [.shard m.sh true] | _ => [])
+  -- inside a maintenance pass the shard maps are always taken with the blocking `write()`
+  | .victim => (match s.pc t with | .mVictim _ _ (vk :: _) _ _ => [.shard (shardOf c vk) true false] | _ => [])
+  | .ttlMap _ => (match s.pc t with | .mTtlMap m _ => [.shard m.sh true false] | _ => [])
   | .ttiMap _ _ =>
     (match s.pc t with
-     | .mTti m => if c.tti = 0 then [] else .shard m.sh true :: List.replicate (min 10 (residentIn c s m.sh)) .clock
+     | .mTti m => if c.tti = 0 then [] else .shard m.sh true false :: List.replicate (min 10 (residentIn c s m.sh)) .clock
      | _ => [])
-  | .capMap _ => (match s.pc t with | .mCapMap m _ _ => [.shard m.sh true] | _ => [])
+  | .capMap _ => (match s.pc t with | .mCapMap m _ _ => [.shard m.sh true false] | _ => [])
   | _ => []
 
-/-- `insert`'s cooperative-maintenance step may also have tried (and failed) the maintenance lock -/
+/-- the sync `insert`'s cooperative-maintenance step may also have tried (and failed) the maintenance lock -/
 def footprintAlt (c : Cfg) (s : State) (t : Nat) : Label → Option (List Acc)
-  | .coopSkip => (match s.pc t with | .insMaint k => some [.maint (shardOf c k) true] | _ => none)
+  | .coopSkip => (match s.pc t with | .insMaint k => (if s.amode t then none else some [.maint (shardOf c k) .tryl]) | _ => none)
   | _ => none
 
 /-! ### The sequential specification: a per-key register that may forget -/
